@@ -150,7 +150,7 @@ static void run_dcase(long idx)
         int const fam = (int)vr_u(&r, DF_NB); size_t const n = pick_size(&r, g_maxSize);
         gen_data(&r, content + total, n, fam);
         vparams P; vp_random(&r, &P, 0); ZSTD_CCtx_reset(cctx, ZSTD_reset_session_and_parameters);
-        if (P.windowLog > 21) { P.n = 1; }
+        if (P.windowLog > 21) vp_level_only(&P);
         if (ZSTD_isError(vp_apply(cctx, &P))) { ZSTD_CCtx_reset(cctx, ZSTD_reset_session_and_parameters); }
         size_t c;
         if (vr_chance(&r, 1, 3)) { /* streaming: no content size in header */
